@@ -18,5 +18,6 @@ class Gap(References, Line):
     "var" : "optional_integer"
   }
   REFERENCE_FIELDS = ["sid1", "sid2"]
+  OTHER_REFERENCES = ["sets", "paths"]
 
 Gap._apply_definitions()
